@@ -56,7 +56,7 @@ def run(cx):
             if not atys or not is_merged_map_ty(atys[0]):
                 continue
             if re.search(r"BTreeMap::<K, V, A>::(insert|remove|remove_entry|retain|clear|pop_first|pop_last|append|extend)$", name) or \
-                    re.search(r"Extend<.*>>?::extend$", t.declared or ""):
+                    re.search(r"Extend(<.*>)?>?::extend$", (t.declared or "") + "|" + name):
                 n += 1
                 owner = f.root or f.id
                 a0 = op_place(t.args[0])
@@ -86,6 +86,43 @@ def run(cx):
         k = (t.j.get("atys") or ["", ""])[1]
         cx.ob("R15.keyed-merge", "%s|entry-keyed-by-NormalizationKey#L" % (f.root or f.id) + str(sum(1 for g, x in ent if g is f and x.bb < t.bb)),
               "NormalizationKey" in k, "merge site keyed by %s" % k, f.loc(t.line), nontrivial=False)
+    # ---- R15.every-occurrence-merged --------------------------------------------------------------
+    # every occurrence of a selection is merged at the position where it occurs: the dispatcher reaches a merge_*
+    # function for each kind of selection on every path, and a user-written / imperative client field that is not
+    # selected loadably is always inlined into the parent map (no skipping because "it was seen before")
+    disp = fb.one(r"create_merged_selection_set::merge_selection_set_into_selection_map$")
+    merges = blocks_calling(disp, r"create_merged_selection_set::merge_(server_scalar_field|client_scalar_field|server_object_field|client_object_field)$")
+    nexts = blocks_calling(disp, r"Iterator>?::next$")
+    sw0 = None
+    for t in disp.calls():
+        if term_calls(t, r"Iterator>?::next$"):
+            sw0 = switch_on_call_result(disp, t)
+    if sw0 is None or "Some" not in sw0["arms"] or len(merges) < 4:
+        raise AnchorError("merge_selection_set_into_selection_map: loop / merge calls not recognised")
+    pth = path_without(disp, sw0["arms"]["Some"], nexts + disp.return_blocks(), merges)
+    cx.ob("R15.every-occurrence-merged", disp.id + "|each-selection-dispatched", pth is None,
+          "a selection can be skipped by the merge dispatcher without reaching a merge_* function", disp.loc(),
+          detail=fmt_path(disp, pth) if pth else None)
+    mc = fb.one(r"create_merged_selection_set::merge_client_scalar_field$")
+    inl = blocks_calling(mc, r"create_merged_selection_set::merge_non_loadable_client_type$")
+    variant_sw = [s_ for s_ in discr_switches(mc) if (s_["adt"] or "").endswith("ClientFieldVariant")]
+    if not inl or not variant_sw:
+        raise AnchorError("merge_client_scalar_field: inlining call / variant match not found")
+    for s_ in variant_sw:
+        for v in ("UserWritten", "ImperativelyLoadedField"):
+            if v not in s_["arms"]:
+                continue
+            pth = path_without(mc, s_["arms"][v], mc.return_blocks(), inl)
+            cx.ob("R15.every-occurrence-merged", "%s|%s-always-inlined" % (mc.id, v), pth is None,
+                  "a non-loadable client field occurrence can be left out of the parent map (e.g. because the field was "
+                  "already encountered elsewhere in this traversal): the same data selected at a second position is "
+                  "missing there, and inlining the field by hand gives a different operation", mc.loc(),
+                  detail=fmt_path(mc, pth) if pth else None)
+    # the variant match itself is reached on every path of the not-loadably-selected arm
+    for s_ in variant_sw:
+        lsw = [x for x in discr_switches(mc) if "None" in x["arms"] and any("Loadabl" in k for k in x["arms"]) or (x["adt"] or "").endswith("option::Option") and x["bb"] != s_["bb"] and mc.dominates(x["bb"], s_["bb"])]
+        cx.count(len(lsw))
+
     # fallibility of a selection seen twice is combined symmetrically
     ms = fb.one(r"create_merged_selection_set::merge_server_scalar_field$")
     sts = stores_to_field(ms, "is_fallible")
